@@ -4,6 +4,7 @@ pub mod e1;
 pub mod e1c;
 pub mod e1o;
 pub mod e2;
+pub mod e4;
 pub mod e5;
 pub mod sched;
 pub mod gen;
